@@ -422,6 +422,17 @@ class Mon:
 
     # ---- walking the token stream ------------------------------------------------
     def feed(self, toks):
+        toks = list(toks)
+        if toks and toks[-1].startswith("lk"):
+            lk = toks.pop()
+            if lk.startswith("lkBAD"):
+                self.bad(None, "the process-wide signal lock was taken or released %s time(s) while not every signal was "
+                               "blocked in the calling thread (a handler can then run in the thread that holds the lock "
+                               "and wait for it for ever)" % lk[5:])
+            elif lk != "lk0":
+                self.bad(None, "harness: the read/write wrappers saw no access to the signal lock (%s)" % lk)
+        else:
+            self.bad(None, "trace without the signal-lock verdict")
         self.toks = toks
         self.pos = 0
         try:
@@ -557,7 +568,7 @@ def main():
     chk.prove()
     try:
         lib = vf.build_libuv(chk.scratch, "ndebug")
-        harness = vf.cc_harness(chk.scratch, "c13_signal", ["c13_signal.c"], lib=lib)
+        harness = vf.cc_harness(chk.scratch, "c13_signal", ["c13_signal.c"], lib=lib, wraps=("read", "write", "pipe2"))
         model = vf.model_bin("C13")
     except vf.BuildError as e:
         chk.violation("build failed: %s" % str(e)[:300], {"kind": "build", "log": str(e)}, found_input=False)
